@@ -1195,19 +1195,28 @@ class HistogramBase(abc.ABC):
         if isinstance(other, HistogramBase):
             raise TypeError("Multiplication of two histograms is not supported.")
         if np.isscalar(other):
-            if isinstance(other, np.integer) and self.dtype.kind in "iu":
-                # Products that the common (possibly compact) integer type cannot hold are
-                # formed in 64 bits, as with a python int (instead of wrapping around)
-                common = np.promote_types(self.dtype, other.dtype)
+            if (
+                isinstance(other, (int, np.integer))
+                and not isinstance(other, (bool, np.bool_))
+                and self.dtype.kind in "iu"
+            ):
                 factor = abs(int(other))
                 biggest = max(
                     int(np.abs(self._frequencies).max(initial=0)) * factor,
                     int(np.nan_to_num(np.abs(self._missed).astype(float)).max(initial=0)) * factor,
                     int(self._errors2.max(initial=0)) * factor * factor,
                 )
-                # Signed with unsigned 64 bits have no common integer type at all
-                if common.kind not in "iu" or biggest > np.iinfo(common).max:
-                    other = int(other)
+                if biggest > np.iinfo(np.int64).max:
+                    # Not even 64 bits hold the products (the squared errors grow with the
+                    # square of the factor): scaled in floating point, as by a float factor
+                    other = float(other)
+                elif isinstance(other, np.integer):
+                    # Products that the common (possibly compact) integer type cannot hold are
+                    # formed in 64 bits, as with a python int (instead of wrapping around)
+                    common = np.promote_types(self.dtype, other.dtype)
+                    # Signed with unsigned 64 bits have no common integer type at all
+                    if common.kind not in "iu" or biggest > np.iinfo(common).max:
+                        other = int(other)
             array = np.asarray(other)
             scalar = cast(float, other)
             if not config.free_arithmetics and scalar < 0:
